@@ -819,16 +819,7 @@ def array_elements_all_processed(F, R, rule):
     if some_t is None:
         R.anchor_lost(rule, "the Some arm of the element loop in handle_recv_message")
         return
-    errs = set()
-    for bi, blk in enumerate(b.blocks):
-        if bi not in b.reachable:
-            continue
-        for st in blk["st"]:
-            if st["s"] == "assign" and st["pl"]["l"] == 0 and not st["pl"].get("p") and st["rv"]["k"] == "agg" and st["rv"].get("variant") == "Err":
-                errs.add(bi)
-        t = blk["term"]
-        if t and t["t"] == "call" and t.get("dest") and t["dest"]["l"] == 0 and re.search(r"from_residual$", (op_const(t["f"]) or {}).get("fn", "")):
-            errs.add(bi)
+    errs = err_return_blocks(b)
     ok = flow.all_paths_pass(b, some_t, errs | {nx.bb}) and some_t not in b.exits
     R.check(ok, rule, "array:every-element-processed", "inside the element loop the function is left only with an error", "handle_recv_message can return successfully from inside the loop over an array's elements: the remaining elements (responses, close notifications) are never routed and the batch that shares the array is never completed - its pending entry stays forever and the caller times out", where(nx))
 
@@ -1288,6 +1279,23 @@ def manager_keys_not_derived(ctx, rule, floor=10):
     R.floor(rule, n, floor, "keyed table operations in RequestManager")
 
 
+def error_code_ints(ctx, b):
+    """the i32 constants that reach the `code` argument of the ErrorObject constructors in `b` (directly or through locals)"""
+    tr = ctx.tracer(follow_callers=False, follow_fields=False)
+    out = set()
+    for c in b.calls_to(r"ErrorObject::<.*>::(owned|borrowed)$"):
+        if c.args:
+            for l in tr.origins(b, c.args[0]):
+                if l.kind == "const" and "int" in l.detail:
+                    out.add(str(l.detail["int"]))
+    for c in b.calls:
+        for a in c.args:
+            k = op_const(a)
+            if k and "int" in k and k.get("ty") == "i32":
+                out.add(str(k["int"]))
+    return out
+
+
 def builder_rebuilds_copy_fields_verbatim(ctx, rule, adt_rx, floor=2):
     """a builder method that changes the builder's *type* (installing a middleware) has to rebuild the value field by
     field: in every construction of the builder inside one of its own methods, a field taken from `self` comes from the
@@ -1369,17 +1377,58 @@ def wire_ids_derive_both(ctx, rule):
             R.check(bool(derived) and not hand, rule, "%s:%s-derived" % (ty, tr_.split("<")[0]), "%s for %s is the derived impl" % (tr_.split("<")[0], ty), "%s for %s is not the derived impl any more (%s): the serialiser and the deserialiser of the id no longer mirror each other, so an id can come back from the peer as a different key than the one that was stored" % (tr_.split("<")[0], ty, [short(h) for h in hand] or "no derived impl found"), None)
 
 
+def return_carriers(b):
+    """locals whose value is moved, unchanged, into the return place: `_0 = move x`, also through the `Poll::Ready(x)` /
+    `(p as Ready).0` pair that stands for the await of an inlined helper (jrsa/inline.py)"""
+    carr = {0}
+    ready = set()
+    changed = True
+    while changed:
+        changed = False
+        for blk in b.blocks:
+            if blk.get("cleanup"):
+                continue
+            for st in blk["st"]:
+                if st["s"] != "assign" or st["pl"].get("p"):
+                    continue
+                d = st["pl"]["l"]
+                rv = st["rv"]
+                if rv["k"] == "use":
+                    q = op_place(rv["op"])
+                    if q is None:
+                        continue
+                    if d in carr and not q.get("p") and q["l"] not in carr:
+                        carr.add(q["l"])
+                        changed = True
+                    pr = q.get("p", [])
+                    if d in carr and len(pr) == 2 and isinstance(pr[0], dict) and pr[0].get("d") == "Ready" and q["l"] not in ready:
+                        ready.add(q["l"])
+                        changed = True
+                    if d in ready and not q.get("p") and q["l"] not in ready:
+                        ready.add(q["l"])
+                        changed = True
+                elif rv["k"] == "agg" and rv.get("variant") == "Ready" and d in ready:
+                    for o in rv["ops"]:
+                        q = op_place(o)
+                        if q is not None and not q.get("p") and q["l"] not in carr:
+                            carr.add(q["l"])
+                            changed = True
+    return carr
+
+
 def err_return_blocks(b):
-    """blocks in which the function's return place is given an `Err(..)` (by hand or by `?`)"""
+    """blocks in which the function's return place - or a local that is moved into it unchanged - is given an `Err(..)`
+    (by hand or by `?`)"""
     errs = set()
+    carr = return_carriers(b) if getattr(b, "d", {}).get("_inlined") else {0}
     for bi, blk in enumerate(b.blocks):
         if bi not in b.reachable:
             continue
         for st in blk["st"]:
-            if st["s"] == "assign" and st["pl"]["l"] == 0 and not st["pl"].get("p") and st["rv"]["k"] == "agg" and st["rv"].get("variant") == "Err":
+            if st["s"] == "assign" and st["pl"]["l"] in carr and not st["pl"].get("p") and st["rv"]["k"] == "agg" and st["rv"].get("variant") == "Err":
                 errs.add(bi)
         t = blk["term"]
-        if t and t["t"] == "call" and t.get("dest") and t["dest"]["l"] == 0 and re.search(r"from_residual$", (op_const(t["f"]) or {}).get("fn", "")):
+        if t and t["t"] == "call" and t.get("dest") and t["dest"]["l"] in carr and not t["dest"].get("p") and re.search(r"from_residual$", (op_const(t["f"]) or {}).get("fn", "")):
             errs.add(bi)
     return errs
 
